@@ -13,7 +13,7 @@ def plans(quick):
                  sim=dict(num=60, depth=12)),
             dict(family='mounts',
                  checks=[dict(steps=4, slots=2)],
-                 gen=dict(steps=4, slots=1, lists=[['u1'], ['m12'], ['c21']]), cover_limit=150, walks=40,
+                 gen=dict(steps=4, slots=1, lists=[['u1'], ['m12'], ['c21'], ['p21']]), cover_limit=150, walks=40,
                  sim=dict(num=60, depth=12)),
             dict(family='kinds', opts={'gens': True},
                  gen=dict(steps=3, slots=1, lists=[['k1'], ['k1', 'k2']], fail=False), cover_limit=80, walks=30,
